@@ -104,6 +104,7 @@ def vecD (d : Dict) (l : LenTy) : Dict :=
       let slots ← vecSlots d l s.len
       let cap := min slots l.max
       if len > cap then .err ⟨.insufficientSize, dOff⟩
+      else if d.ssize = 0 then .ok ()        -- zero-sized elements are not visited
       else vecElems d dOff s len 0,
     size := fun s => do
       let len ← l.readU s
